@@ -46,13 +46,18 @@ func commentBody(c comment) string {
 	case "scope":
 		return fmt.Sprintf(" @scope: recv k%d", c.At)
 	}
-	return fmt.Sprintf(" c%dx", c.At)
+	return fmt.Sprintf(" c%dx  two blanks", c.At)
 }
 
 func commentText(c comment) string {
 	b := commentBody(c)
-	if c.M == "/*" {
+	switch {
+	case c.M == "/*" && c.Sp == "twolines":
+		return "/*" + b + "\n   second line */"
+	case c.M == "/*":
 		return "/*" + b + " */"
+	case c.Sp == "run": // a run of marker characters: ## and ///
+		return c.M + c.M[:1] + b
 	}
 	return c.M + b
 }
@@ -61,7 +66,12 @@ func commentText(c comment) string {
 func canonComment(lit string) (m, body string) {
 	switch {
 	case strings.HasPrefix(lit, "/*"):
-		return "/*", strings.TrimSuffix(strings.TrimPrefix(lit, "/*"), " */")
+		// the indentation of the continuation line of a block comment is layout, not text
+		b := strings.TrimSuffix(strings.TrimPrefix(lit, "/*"), " */")
+		if i := strings.Index(b, "\n"); i >= 0 && strings.TrimSpace(b[i:]) == "second line" {
+			b = b[:i]
+		}
+		return "/*", b
 	case strings.HasPrefix(lit, "//"):
 		return "//", strings.TrimLeft(lit, "/")
 	case strings.HasPrefix(lit, "#"):
@@ -140,6 +150,12 @@ func render(toks []piece, cm []comment, lay *layout) (string, []piece) {
 				case "lead", "inner":
 					if !lineEmpty {
 						nl()
+					}
+					if c.Sp == "blankbefore" {
+						nl()
+						if sb.Len() == 1 {
+							nl()
+						}
 					}
 					sb.WriteString(txt)
 					nl()
